@@ -175,6 +175,27 @@ def run(pid, tier, seed):
         p = os.path.join(tr, "tlc-counterexample-%s.txt" % tier); open(p, "w").write(mc["out"][-200000:])
         violations.append(dict(replay=p, what="TLC: invariant %s violated in the specification (%s)" % (mc["violated"], cfg), fingerprint=None))
     log("[%s] model checking %s: %s distinct states, %s generated, depth %s, %.0fs" % (pid, cfg, mc["distinct"], mc["states"], mc["depth"], mc["wall"]))
+    # (a') the thread-level hand-shake underneath one loop iteration (EngineSync.tla): lost wake-ups, the cancellation drain,
+    # termination under fairness; the implementation side of it is the hook-driven delivery + the hang watchdog below
+    sync = None
+    if pid in ("C05", "C06"):
+        scfgs = ["MC_sync_quick.cfg", "MC_sync_spurious.cfg"] if tier == "quick" else ["MC_sync_thorough.cfg", "MC_sync_spurious.cfg"]
+        sync = dict(distinct=0, states=0, cfgs=scfgs)
+        for sc in scfgs:
+            sm = engine_check.model_check(sc, "MC_sync.tla", timeout=600)
+            if sm["violated"]:
+                tr = os.path.join(vlib.REPLAY, pid); os.makedirs(tr, exist_ok=True)
+                p = os.path.join(tr, "tlc-counterexample-sync-%s.txt" % tier); open(p, "w").write(sm["out"][-200000:])
+                violations.append(dict(replay=p, what="TLC: %s violated in EngineSync.tla (%s)" % (sm["violated"], sc), fingerprint=None))
+            sync["distinct"] += sm["distinct"] or 0; sync["states"] += sm["states"] or 0
+            log("[%s] model checking %s: %s distinct states, %s generated, %.0fs" % (pid, sc, sm["distinct"], sm["states"], sm["wall"]))
+        # vacuity: with one documented safeguard switched off the model must lose a wake-up
+        sync["vacuity"] = []
+        for vc in ("MC_sync_vac_recheck.cfg", "MC_sync_vac_notify.cfg", "MC_sync_vac_drain.cfg"):
+            if os.environ.get("VERIF_SKIP_MC"): break
+            vm = engine_check.model_check(vc, "MC_sync.tla", workers=2, timeout=600)
+            if vm["violated"] != "NoLostWakeup": raise vlib.Infra("vacuity configuration %s: expected NoLostWakeup, TLC reported %s" % (vc, vm["violated"]))
+            sync["vacuity"].append(dict(config=vc, expected="NoLostWakeup", found=vm["violated"]))
     # (b) implementation traces
     cases = gen_cases(pid, tier, seed, wd)
     tot = engine_check.run_cases(pid, wd, cases, binary)
@@ -243,6 +264,10 @@ def run(pid, tier, seed):
                tlc_config=cfg, tlc_depth=mc["depth"], tlc_wall_s=round(mc["wall"], 1), trace_states=tot["states"],
                executions=tot["executions"], exhaustive=(tier == "quick" or True) and not mc.get("rc") == 124)
     cov.update(extra)
+    if sync:
+        cov["states"] += sync["distinct"]; cov["transitions"] += sync["states"]
+        cov["sync_model"] = dict(module="EngineSync.tla", configurations=sync["cfgs"], distinct_states=sync["distinct"], vacuity=sync.get("vacuity", []),
+                                 properties=["TypeOK", "CountsAgree", "QueueBound", "NoLostWakeup", "ReturnsQuiet", "Termination (weak fairness)", "CancelHonoured"])
     return dict(level="model_checking", coverage=cov, violations=violations,
                 assumptions=["scripted rules are deterministic functions of their inputs (generator premise: single-use inputs do not influence values)",
                              "TLC explores the bounded program family/history bounds of %s exhaustively; larger programs only through validated implementation traces" % cfg,
